@@ -505,6 +505,18 @@ def dtype_independence(kind, param, flux, res=None):
     L, R = pairs(int_states(kind))
     with np.errstate(all="ignore"):
         F = M.F(flux, L.copy(), R.copy())
+    # the same float64 pairs as strided views (reversed; every second element of a longer array): elementwise functions do not see the layout
+    n = L.shape[1]
+    big_l, big_r = np.repeat(L, 2, axis=1), np.repeat(R, 2, axis=1)
+    for lname, vl, vr, back in (("reversed-view", L[:, ::-1], R[:, ::-1], lambda a: a[::-1]), ("every-second-element-view", big_l[:, ::2], big_r[:, ::2], lambda a: a)):
+        with np.errstate(all="ignore"):
+            G = M.F(flux, vl, vr)
+        if res is not None:
+            res.evals += n
+        for k, comp in enumerate(M.comps):
+            g = back(np.asarray(G[k]))
+            if g.shape != F[k].shape or not np.array_equal(g, F[k], equal_nan=True):
+                out.append(("%s/memory-layout/%s" % (base, comp), "%s %s: pairs handed over as a %s give other fluxes than the same pairs as contiguous arrays" % (M.name, M.tag(), lname), 0, lname))
     for dt in (np.int64, np.int32):
         with np.errstate(all="ignore"):
             G = M.F(flux, L.astype(dt), R.astype(dt))
